@@ -122,10 +122,14 @@ def run(ctx):
     f = prog.fn('psf_fseek', 'file_io.c')
     adds = [n for n in f.walk() if n['k'] == 'CompoundAssignOperator' and n['op'] == '+=' and f.s(n['kids'][0]) == 'offset' and f.s(n['kids'][1]) == 'psf->fileoffset']
     ok = False
+    from engine.util import branch_facts as _bf14
     for n in adds:
         for a in f.ancestors(n):
             if a['k'] == 'CaseStmt' and a.get('cn') in ('SEEK_SET', '0') or (a['k'] == 'CaseStmt' and a.get('cv') == 0):
                 ok = True
+        # the same as an if chain: `if (whence == SEEK_SET) offset += psf->fileoffset`
+        if any(pol and cs in ('(whence==SEEK_SET)', '(whence==0)') for cs, pol in _bf14(f, n)):
+            ok = True
     ctx.ob('OFFSET-SYM', 'psf_fseek:SEEK_SET', ok, f.loc(adds[0]) if adds else f.loc(f.body), 'offset += psf->fileoffset %s' % ('in the SEEK_SET arm' if ok else 'MISSING in the SEEK_SET arm'), None)
     for name in ('psf_fseek', 'psf_ftell'):
         f = prog.fn(name, 'file_io.c')
@@ -151,11 +155,21 @@ def run(ctx):
     want = {E[k] for k in ('SF_FORMAT_WAV', 'SF_FORMAT_WAVEX', 'SF_FORMAT_AIFF', 'SF_FORMAT_AU', 'SF_FORMAT_MPEG', 'SF_FORMAT_FLAC')}
     found = None
     for n in f.walk():
-        if n['k'] == 'SwitchStmt' and f.s(n['cond']) == 'format':
+        # the switch whose default arm refuses embedding (recognised by what it does, not by the name of its subject)
+        if n['k'] == 'SwitchStmt' and any('SFE_NO_EMBED_SUPPORT' in f.s(x) for d_ in f.walk(n['body']) if d_['k'] == 'DefaultStmt' for x in f.walk(d_)):
             cases = {c['cv'] for c in f.walk(n['body']) if c['k'] == 'CaseStmt' and 'cv' in c}
             dflt = [c for c in f.walk(n['body']) if c['k'] == 'DefaultStmt']
             errs = [f.s(x) for d in dflt for x in f.walk(d) if x['k'] == 'BinaryOperator' and x['op'] == '=']
             found = (cases, errs, n)
+    if found is None:
+        # fallback: the switch over container constants nested under a test of psf->fileoffset (so that a default arm that lost its refusal is reported, not lost)
+        for n in f.walk():
+            if n['k'] == 'SwitchStmt' and any(a_['k'] == 'IfStmt' and 'fileoffset' in f.s(a_['cond']) for a_ in f.ancestors(n)):
+                cases = {c['cv'] for c in f.walk(n['body']) if c['k'] == 'CaseStmt' and 'cv' in c}
+                if {E['SF_FORMAT_WAV'], E['SF_FORMAT_AIFF'], E['SF_FORMAT_AU']} <= cases:
+                    dflt = [c for c in f.walk(n['body']) if c['k'] == 'DefaultStmt']
+                    errs = [f.s(x) for d in dflt for x in f.walk(d) if x['k'] == 'BinaryOperator' and x['op'] == '=']
+                    found = (cases, errs, n)
     ctx.require(found is not None, 'embedding whitelist switch not found in psf_open_file')
     ctx.ob('EMBED', 'whitelist', found[0] == want and any('SFE_NO_EMBED_SUPPORT' in e for e in found[1]), f.loc(found[2]),
            'whitelist %s, default -> %s' % (sorted(hex(c) for c in found[0]), found[1]), None)
